@@ -9,6 +9,8 @@ mod verif_kani_key {
         let b: u8 = kani::any();
         assert!(UNQUOTED_CHAR.contains_token(b) == o_class::unquoted_char(b));
         assert!(DOT_SEP == 0x2e);
+        // bytes accepted by this table reach `from_utf8_unchecked`: they must be ASCII (unsafe precondition)
+        assert!(!UNQUOTED_CHAR.contains_token(b) || b < 0x80, "table feeding from_utf8_unchecked admits a non-ASCII byte");
         kani::cover!(UNQUOTED_CHAR.contains_token(b));
         kani::cover!(!UNQUOTED_CHAR.contains_token(b));
     }
